@@ -25,7 +25,7 @@ FlushOf(es) == CHOOSE i \in 1 .. Len(fl) : fl[i].es = es
 
 Event(ev) ==
     CASE ev.ev = "Arrive" -> Arrive(ev.e)
-      [] ev.ev = "Flush" -> \E k \in Keys : buf[k] = ev.es /\ (SizeFlush(k) \/ TimerFire(k))
+      [] ev.ev = "Flush" -> ev.md = ev.es /\ \E k \in Keys : buf[k] = ev.es /\ (SizeFlush(k) \/ TimerFire(k))
       [] ev.ev = "ConsumerDone" -> (\E i \in 1 .. Len(fl) : fl[i].es = ev.es) /\ ConsumerDone(FlushOf(ev.es))
       [] ev.ev = "FlushRelease" -> (\E i \in 1 .. Len(fl) : fl[i].es = ev.es) /\ FlushRelease(FlushOf(ev.es))
                                    /\ NewFired = ev.fired
@@ -34,7 +34,9 @@ Event(ev) ==
       [] ev.ev = "Advance" -> TraceAdvance(ev.now)
       [] ev.ev = "ObsBuf" -> (\A k \in Keys : buf[k] = ev.buf[k + 1]) /\ Same
       [] ev.ev = "ObsRc" -> (\A e \in 1 .. Len(ev.rc) : rc[e] = ev.rc[e]) /\ Same
-      [] ev.ev = "End" -> Same
+      [] ev.ev = "ObsTimers" -> (\A k \in Keys : (timer[k] >= 0) <=> (k \in {ev.armed[i] : i \in 1 .. Len(ev.armed)})) /\ Same
+      \* after the drain nothing may be left waiting for a timer that does not exist
+      [] ev.ev = "End" -> (Timeout > 0 => \A k \in Keys : buf[k] = <<>> /\ timer[k] = -1) /\ Same
       [] OTHER -> FALSE
 
 TraceNext ==
